@@ -40,9 +40,12 @@ def resetLoop (level : Nat) : Nat → Stack → Stack
 
 def resetStack (level : Nat) (_vlen : Nat) (s : Stack) : Stack := resetLoop level s.frames.length s
 
-/-- The repaired variant: the error path also truncates the value stack to its length at entry. -/
+/-- The error path of `call_thunk_top` / `execute_io_top` as it is now (thread.rs:1137-1151, :1167-1179):
+    `reset_stack(stack, level)`, then `left_over = stack.len().saturating_sub(stack_len)` values are popped
+    (`stack_len` = the length recorded at entry).  (`resetStack` alone is the rule of the code before that fix.) -/
 def resetFixed (level : Nat) (vlen : Nat) (s : Stack) : Stack :=
-  { resetLoop level s.frames.length s with values := vlen }
+  let s' := resetLoop level s.frames.length s
+  { s' with values := s'.values - (s'.values - vlen) }
 
 /-- One top-level evaluation on a long-lived thread. `depth` frames and `vals` values are live when it
     ends; a successful run returns through every frame (values popped with them), a failing one leaves
@@ -50,6 +53,9 @@ def resetFixed (level : Nat) (vlen : Nat) (s : Stack) : Stack :=
 inductive Step where
   | ok (depth vals : Nat)
   | fail (depth vals : Nat)
+  /-- the host calls a Gluon function through `Function::call` and the call fails: `call_first`
+      (vm/src/api/function.rs:445-464) returns the error with `?` — no `reset_stack`, nothing is popped -/
+  | hostFail (depth vals : Nat)
   deriving Repr
 
 def runOps (depth vals : Nat) : List Op := .push vals :: List.replicate depth (.enter 0)
@@ -57,6 +63,7 @@ def runOps (depth vals : Nat) : List Op := .push vals :: List.replicate depth (.
 def stepWith (reset : Nat → Nat → Stack → Stack) (s : Stack) : Step → Stack
   | .ok _ _ => s
   | .fail d v => reset s.frames.length s.values (s.run (runOps d v))
+  | .hostFail d v => s.run (runOps d v)
 
 def runHistory (reset : Nat → Nat → Stack → Stack) (steps : List Step) (s : Stack) : Stack :=
   steps.foldl (stepWith reset) s
@@ -64,5 +71,11 @@ def runHistory (reset : Nat → Nat → Stack → Stack) (steps : List Step) (s 
 def failLeak : Step → Nat
   | .ok _ _ => 0
   | .fail _ v => v
+  | .hostFail _ v => v
+
+/-- top-level evaluations only (`run_expr`): no failing host call of a function -/
+def Step.topLevel : Step → Bool
+  | .hostFail _ _ => false
+  | _ => true
 
 end GluonModel.Frames
